@@ -68,13 +68,17 @@ struct EncRun {
         }
         break; }
       default: {
-        ret = vorbis_encode_setup_managed(&vi, e.ch, e.rate, e.mx, e.nom, e.mn);
+        // a hard minimum drawn above the hard maximum: the set-up call gets the pair in order (it refuses the other order), the control interface is
+        // then offered the pair as drawn and has to refuse it, leaving the limits of the set-up in force
+        bool contra = e.mx > 0 && e.mn > 0 && e.mn > e.mx;
+        ret = vorbis_encode_setup_managed(&vi, e.ch, e.rate, contra ? e.mn : e.mx, e.nom, contra ? e.mx : e.mn);
         if (!ret) {
           struct ovectl_ratemanage2_arg rm; memset(&rm, 0, sizeof rm);
           int g = vorbis_encode_ctl(&vi, OV_ECTL_RATEMANAGE2_GET, &rm); h.i64(g);
           if (!g) {
             if (e.reservoir >= 0) rm.bitrate_limit_reservoir_bits = e.reservoir;
             if (e.bias > -999) rm.bitrate_limit_reservoir_bias = e.bias;
+            if (contra) { rm.bitrate_limit_min_kbps = std::max<long>(1, e.mn / 1000); rm.bitrate_limit_max_kbps = std::max<long>(1, e.mx / 1000); if (rm.bitrate_limit_min_kbps <= rm.bitrate_limit_max_kbps) rm.bitrate_limit_min_kbps = rm.bitrate_limit_max_kbps + 1; g_stats.inc("probe.control_interface_offered_min_above_max"); }
             int s = vorbis_encode_ctl(&vi, OV_ECTL_RATEMANAGE2_SET, &rm); h.i64(s);
             vorbis_encode_ctl(&vi, OV_ECTL_RATEMANAGE2_GET, &rm);
             if (rm_out) *rm_out = rm;
